@@ -34,3 +34,25 @@ Theorem C08_bust_replaces : forall c o r t v, wf c -> bust c = true -> fst (run 
   lookup (store (snd (run sched_params c o))) t = Some v.
 Proof. exact (bust_replaces sched_params eq_refl). Qed.
 Print Assumptions C08_bust_replaces.
+
+(* cached_tasks reflects exactly what the storage holds for the requested types (Model/Listing.v; the store stage of this check
+   compares Lab.cached_tasks with it on real storages): after any sequence of saves, the listing is the saved tasks of those
+   types, each once, with the stored result_meta. *)
+Require Import LT.Model.Values LT.Model.Listing LT.Proofs.ListingProofs.
+Theorem C08_listing_reflects_store : forall e dumps H tys (items : list item),
+  (forall it, In it items -> wf_item e it) ->
+  (forall ty it, In ty tys -> In it items -> tt_cls ty = tt_cls (it_ty it) -> ty = it_ty it) ->
+  cached_tasks deser_mode_src e tys (map (fun it => save_entry dumps H (it_ty it) (it_task it) (it_meta it)) items) =
+  Some (map (fun it => (it_task it, it_meta it)) (filter (wanted tys) items)).
+Proof. exact listing_exact. Qed.
+Print Assumptions C08_listing_reflects_store.
+
+(* uncache_tasks(cached_tasks(types)) — deleting the keys of what a listing returned — removes exactly the entries of those
+   types and leaves every other entry as it was (distinct stored tasks have distinct keys: C07). *)
+Theorem C08_uncache_listed_exact : forall dumps H tys (items : list item),
+  NoDup (map (fun it => cache_key dumps H (tt_prefix (it_ty it)) (it_task it)) items) ->
+  delete_keys (map (fun it => cache_key dumps H (tt_prefix (it_ty it)) (it_task it)) (filter (wanted tys) items))
+              (map (fun it => save_entry dumps H (it_ty it) (it_task it) (it_meta it)) items)
+  = map (fun it => save_entry dumps H (it_ty it) (it_task it) (it_meta it)) (filter (fun it => negb (wanted tys it)) items).
+Proof. exact uncache_listed_exact. Qed.
+Print Assumptions C08_uncache_listed_exact.
